@@ -3,6 +3,7 @@ package props
 import (
 	"encoding/json"
 	"fmt"
+	"reflect"
 	"sort"
 	"strings"
 	"testing"
@@ -177,9 +178,49 @@ func TestC06(t *testing.T) {
 			}
 		}
 	})
-	// under well-typed configurations (severity must match the name whatever option is set)
+	// enumerated: sections that cannot be applied (the framework itself then answers for the lint, and what it answers
+	// is open to every lint only if it is fatal) x the configurable lints x objects they run on
+	{
+		sens := sensitiveObjects()
+		k := 0
+		for _, ci := range engine.Configurables() {
+			docs := []string{ci.Name + " = 5\n", ci.Name + " = \"x\"\n", ci.Name + " = [1, 2]\n", "[[" + ci.Name + "]]\nx = 1\n", ci.Name + " = 1979-05-27T07:32:00Z\n"}
+			for _, f := range ci.Fields {
+				bad := `"notatype"`
+				if f.Type.Kind() == reflect.String {
+					bad = "[1]"
+				}
+				docs = append(docs, fmt.Sprintf("[%s]\n%s = %s\n", ci.Name, f.Name, bad), fmt.Sprintf("[%s.%s]\nx = 1\n", ci.Name, f.Name))
+			}
+			objs := sens[ci.Name]
+			if hs := homeObjects()[ci.Name]; len(hs) > 0 {
+				objs = append(append([]gen.Obj{}, objs...), kindObjs(lintKindOf(ci.Name))[hs[0]])
+			}
+			for _, o := range objs {
+				for _, d := range docs {
+					k++
+					if !stats.Mine(k) {
+						continue
+					}
+					d := d
+					c := engine.Case{Kind: o.Kind, DER: o.DER, Base: o.Name, Config: &d, Note: "ill-typed section"}
+					rec.Eval()
+					rec.Class("ill_typed")
+					if sig, msg := judgeC06(rec, c); msg != "" {
+						if rec.Report("c06", sig, msg, c) {
+							t.Fatalf("c06 %s under %q: %s: %s", o.Name, d, sig, msg)
+						}
+					}
+				}
+			}
+		}
+	}
+	// under well-typed configurations (severity must match the name whatever option is set), and under ill-typed ones
 	rapidRun(t, "configured", perShard(stats.Scale(12000, 400000)), func(rt *rapid.T) {
 		c, _ := drawConfiguredCase(rt)
+		if rapid.IntRange(0, 4).Draw(rt, "ill") == 0 {
+			drawConfig(rt, &c, true)
+		}
 		rec.Eval()
 		rec.Class("configured")
 		if sig, msg := judgeC06(rec, c); msg != "" {
